@@ -14,6 +14,8 @@ import os
 
 import numpy as np
 
+from common import relayout
+
 from tlc import run_tlc, read_json
 
 BOX, VELZ = 2000.0, 1100.0
@@ -48,7 +50,7 @@ def run_modes(chk, data, out, tag, nrun):
             sbuf = np.full((len(data), 7), np.nan, dtype=dt)
             posout = {'alloc': None, 'supplied': np.full((len(data), 3), np.nan, dtype=dt), 'strided': sbuf[:, 0:3], 'skip': False}[pm]
             velout = {'alloc': None, 'supplied': np.full((len(data), 3), np.nan, dtype=dt), 'strided': sbuf[:, 4:7], 'skip': False}[vm]
-            r = unpack_pack9(data.copy(), BOX, VELZ, float_dtype=dt, posout=posout, velout=velout)
+            r = unpack_pack9(relayout(data, nrun[0]) if len(data) <= 5000 else data.copy(), BOX, VELZ, float_dtype=dt, posout=posout, velout=velout)
             nrun[0] += 1
             p = r[0] if pm == 'alloc' else (posout[:r[0]] if pm in ('supplied', 'strided') else None)
             v = r[1] if vm == 'alloc' else (velout[:r[1]] if vm in ('supplied', 'strided') else None)
